@@ -13,6 +13,17 @@ class Boom(Exception):
     pass
 
 
+class BadBool:
+    """a value a predicate may return whose truth test raises (numpy arrays do this)"""
+    __slots__ = ()
+
+    def __bool__(self):
+        raise TypeError("the truth value of this object is ambiguous")
+
+    def __repr__(self):
+        return "BadBool()"
+
+
 def enc(v, _budget=None):
     """canonical encoding; bounded (a broken implementation can turn the document into a DAG
     or a cycle whose unfolding is exponential / infinite)"""
@@ -230,6 +241,8 @@ class Builder:
             def out(o):
                 if o[0] == "v":
                     return dec(o[1])
+                if o[0] == "b":
+                    return BadBool()     # the truth test raises TypeError where the value is used
                 raise {"Boom": Boom, "ValueError": ValueError, "KeyError": KeyError}[o[1]]()
 
             def tab(m):
